@@ -320,6 +320,12 @@ func (c *Collection) WriteUpdateWithXattrs(
 			}
 		}
 
+		var missingError sgbucket.MissingError
+		if previous.Cas != 0 && errors.As(err, &missingError) {
+			// What the callback was shown has since been deleted or purged: a stale read like a CAS mismatch.
+			previous = nil
+			continue
+		}
 		if _, ok := err.(sgbucket.CasMismatchErr); !ok && !errors.Is(err, sgbucket.ErrKeyExists) {
 			// Exit loop on success or failure
 			return casOut, err
